@@ -453,6 +453,23 @@ def check_add_record_pairing(cx: Cx, ob: Ob) -> None:
                 detail="index-raises",
             )
             break
+    # ... and the merger, for the same reason, may refuse only BEFORE it has touched `into`
+    mg = merger(cx)
+    if mg is not None:
+        mgs = cx.summary(mg, ob.id)
+        into_ = ("param", "into")
+        for t, rctx in mgs.raises():
+            touched = [e for e in rctx.trail if (e.kind == "expr" and op(e.a) == "call" and callee_name(e.a) in MUTATORS and any(x == into_ for x in subterms(e.a[1]))) or (e.kind == "store" and any(x == into_ for x in subterms(e.a)))]
+            if touched:
+                line = rctx.path.out[2] if rctx.path.out is not None and len(rctx.path.out) > 2 else mg.node.lineno
+                ob.violate(
+                    mg.qualname,
+                    where(mg, line),
+                    f"{mg.name} can raise (`{show(t)[:50]}`) after it has already changed `into` (line {touched[0].line}): add_record has not re-indexed yet, so a refused merge leaves the record with names its lookup tables do not know",
+                    witness="a record with a repeated synonym, then add_prefix(..., merge=True) into it with the error caught",
+                    detail="merge-raises-after-mutation",
+                )
+                break
     # add_prefix: every path that returns normally has handed the record to add_record - except when the call
     # provably asks for nothing new: the (prefix, URI prefix) pair is registered as given AND no synonyms are passed
     from ..rules import guard_atoms
@@ -852,6 +869,10 @@ def _bool_eval(t, atom, env):
     if o == "cmp" and t[1] in ("!=", "not in"):
         return not _bool_eval(("cmp", {"!=": "==", "not in": "in"}[t[1]], t[2], t[3]), atom, env)
     a = atom(t)
+    if a is None and o == "call" and t[1] == ("builtin", "any") and len(t[2]) == 1 and op(t[2][0]) == "comp" and len(t[2][0][3]) == 1 and not t[2][0][3][0][2] and op(t[2][0][2]) in ("and", "or", "not"):
+        # any(<formula over b> for b in bs): judged for a haystack of one element, b standing for it
+        comp = t[2][0]
+        return _bool_eval(comp[2], lambda x: atom(("elem", x, comp[3][0][0], comp[3][0][1])), env)
     if a is None:
         raise _Unknown(show(t)[:60])
     return env[a]
@@ -873,6 +894,23 @@ def check_compare_helpers(cx: Cx, ob: Ob) -> None:
         def atom(t, A=A, Bp=Bp, C=C, name=name):
             if t == C:
                 return "C"
+            lenc = lambda x: ("call", ("builtin", "len"), (x,), ())  # noqa: E731
+            if op(t) == "elem":
+                # an atom about ONE element `tgt` of the haystack (inside any(...)): the element plays b's part
+                x, tgt, hay = t[1], t[2], t[3]
+                if hay != Bp:
+                    return None
+                if op(x) == "cmp" and x[1] == "==":
+                    l, r = x[2], x[3]
+                    if {l, r} == {A, tgt}:
+                        return "E"
+                    if (_fold_of(l, A) and _fold_of(r, tgt)) or (_fold_of(r, A) and _fold_of(l, tgt)):
+                        return "F"
+                    if {l, r} == {lenc(A), lenc(tgt)}:
+                        return "L"
+                return None
+            if op(t) == "cmp" and t[1] == "==" and {t[2], t[3]} == {lenc(A), lenc(Bp)} and name == "_eq":
+                return "L"
             if name == "_eq":
                 if op(t) == "cmp" and t[1] == "==":
                     l, r = t[2], t[3]
@@ -920,8 +958,10 @@ def check_compare_helpers(cx: Cx, ob: Ob) -> None:
                 for F in (False, True):
                     if E and not F:
                         continue  # equal strings have equal case-folds
-                    for Cv, Hv in ((False, False), (False, True), (True, False), (True, True)):
-                        env = {"E": E, "F": F, "C": Cv, "H": Hv}
+                    for Cv, Hv, Lv in [(c_, h_, l_) for c_ in (False, True) for h_ in (False, True) for l_ in (False, True)]:
+                        if E and not Lv:
+                            continue  # equal strings have equal length (case-folded equal ones need not: 'ß' / 'SS')
+                        env = {"E": E, "F": F, "C": Cv, "H": Hv, "L": Lv}
                         got = None
                         for t, ctx in hs.returns():
                             if all(_bool_eval(g.a, atom, env) == g.b for g in ctx.guards if g.kind == "guard"):
